@@ -70,6 +70,8 @@ class _Udp:
         ep = CUR['ep']
         ep.send_calls += 1
         exc = ep.send_faults.pop(ep.send_calls, None)
+        if exc is None and ipaddress.ip_address(addr[0]) in ep.unreachable:
+            exc = OSError(101, 'Network is unreachable')
         if exc is not None:
             ep.faults_fired.append(('send', ep.send_calls, repr(exc)))
             raise exc
@@ -278,6 +280,7 @@ class Endpoint:
         self.tcp = None
         self.xsock = None
         self.send_faults = {}
+        self.unreachable = set()     # destination addresses every sendto to which fails
         self.send_calls = 0
         self.faults_fired = []
         self.control_replies = []
